@@ -458,6 +458,12 @@ func c12Lookup(c *core.Ctx, name string, fn *ssa.Function) {
 	fromMethodIn = func(v ssa.Value, idx int64, methodParam ssa.Value, depth int) bool {
 		// v = *(&split[idx]) where split = strings.SplitN(method'[1:], "/", 2)
 		return core.OriginIs(v, func(o ssa.Value) bool {
+			// strings.Cut(method'[1:], "/"): before / after are the two segments of SplitN(…, "/", 2)
+			if call, k, isCall := core.CallResult(o); isCall && core.InfoOf(&call.Call).Is("strings.Cut") && int64(k) == idx && len(call.Call.Args) == 2 {
+				if sep, _ := core.ConstString(call.Call.Args[1]); sep == "/" {
+					return derivesFromString(call.Call.Args[0], methodParam)
+				}
+			}
 			// through a repo helper: result k of H(method') where H's return k is segment idx of its parameter
 			if call, k, isCall := core.CallResult(o); isCall && depth < 2 {
 				if h := core.InfoOf(&call.Call).Static; h != nil && h.Blocks != nil && core.PkgIs(h, "inprocgrpc") {
